@@ -166,7 +166,11 @@ func rawVerify(alg string, pub crypto.PublicKey, prot, payload, sig []byte) bool
 
 // rawSign signs Sig_structure(prot, payload) with crypto/* directly (for hand-assembled envelopes).
 func rawSign(k *fixtures.Key, alg string, prot, payload []byte) []byte {
-	tbs := sigStructure(prot, payload)
+	return rawSignBytes(k, alg, sigStructure(prot, payload))
+}
+
+// rawSignBytes signs arbitrary bytes the way the algorithm signs its to-be-signed bytes.
+func rawSignBytes(k *fixtures.Key, alg string, tbs []byte) []byte {
 	switch alg {
 	case "EdDSA":
 		return ed25519.Sign(k.Priv.(ed25519.PrivateKey), tbs)
